@@ -256,7 +256,10 @@ fn read_all_file(total: &[u8], ds: &[usize], ask: &[i32]) -> Result<Out, String>
     let ds_v = ds.to_vec();
     let mut tmp: Option<std::path::PathBuf> = None;
     let mut writer: Option<std::thread::JoinHandle<()>> = None;
-    let file: std::fs::File = if ds.is_empty() {
+    let file: std::fs::File = if ds.first() == Some(&FAIL) {
+        // an I/O error at the first read: a directory opened as a file (EISDIR)
+        std::fs::File::open(std::env::temp_dir()).expect("open temp dir")
+    } else if ds.is_empty() {
         let pth = std::env::temp_dir().join(format!("tw-teehist-{}-{}.th", std::process::id(), SEQ.fetch_add(1, Ordering::SeqCst)));
         std::fs::write(&pth, &total_v).expect("write temp file");
         let f = std::fs::File::open(&pth).expect("open temp file");
@@ -285,7 +288,7 @@ fn read_all_file(total: &[u8], ds: &[usize], ask: &[i32]) -> Result<Out, String>
         let mut evs = vec![];
         let ferr = |e: &FErr| match e {
             FErr::Teehistorian(e) => err_str(&Error::Teehistorian(clone_ferr(e))),
-            FErr::Io(e) => format!("Io:{:?}", e.kind()),
+            FErr::Io(_) => "Cb".to_string(),
         };
         let new = match libtw2_teehistorian::Reader::new(file, &mut buf) {
             Ok((hd, rd)) => Ok((hd.version, rd)),
@@ -1713,6 +1716,8 @@ impl Domain for D {
                 }
                 emit(w, "all2", ver, hdr, &d11, "");
             }
+            // `Error::Io` through the public reader: the very first read fails
+            emit(w, "file", 2, &hdr2, &d11, "x0/w");
             for v in [0u32, 3, 7] {
                 let h = header(v, 0);
                 for f in ["w", "b", "l:16,1,1,400"] {
